@@ -119,8 +119,42 @@ func declLists(css string) (m map[string][]string, n int) {
 // font-family long-hand by the reference cases of part b.
 var notLayerLists = map[string]bool{"content": true, "font": true}
 
+// commaGrammar: the properties (of those the library supports) whose grammar has a top-level
+// comma at all: the per-layer background long-hands (CSS Backgrounds 3 §3), font-family,
+// font-feature-settings (CSS Fonts 3 §3.1, §6.12), font-variation-settings (CSS Fonts 4 §7.2),
+// string-set (CSS GCPM 3 §1.1), the shorthands `background` and `font`, and `content`
+// (alternatives). In every other property a value with a top-level comma is an invalid value:
+// the declaration must be dropped (clause invalid-value-accepted).
+var commaGrammar = map[string]bool{
+	"background": true, "background-attachment": true, "background-clip": true, "background-image": true, "background-origin": true,
+	"background-position": true, "background-repeat": true, "background-size": true, "font-family": true, "font-feature-settings": true,
+	"font-variation-settings": true, "string-set": true, "font": true, "content": true,
+}
+
 func (c *check) runListFamily(ctx *engine.Ctx, prop string, pi *propInfo) {
 	if notLayerLists[prop] {
+		return
+	}
+	if !commaGrammar[prop] {
+		items := c.listItems(ctx, prop, pi)
+		for _, a := range items {
+			for _, b := range items {
+				css := prop + ":" + a + " , " + b
+				feats := []string{"prop:" + prop, "comma-outside-list"}
+				ctx.Trans(1)
+				var got string
+				if !ctx.GuardFail(desc("a", feats, css), feats, func() { got = canonDecls(parseDecls(css)) }) {
+					ctx.Case(true, "panic")
+					continue
+				}
+				ctx.Case(true, got)
+				ctx.Count("a:comma-outside-list-tried", 1)
+				if got != "" {
+					ctx.Fail(engine.Failure{Clause: "invalid-value-accepted", Features: feats, Case: css,
+						Detail: "the grammar of " + prop + " has no top-level comma: the declaration must be dropped; the library keeps it as\n" + got})
+				}
+			}
+		}
 		return
 	}
 	items := c.listItems(ctx, prop, pi)
